@@ -1115,4 +1115,128 @@ example :
     exprReasons (.doc [("$eq", .str "$a")]) (.doc [("_id", .int 0), ("a", .int 1)]) = ["specraises"] := by
   decide +kernel
 
+/-! ### `$dateFromParts`, `$dateFromString` -/
+
+/-- **civil_of_days** — the other direction of `civil_roundtrip`: the day number of a valid
+    calendar date (month 1 … 12, day 1 … the days of that month, any year) gives that date back. -/
+theorem civil_of_days (y m d : Int) (hm1 : 1 ≤ m) (hm2 : m ≤ 12) (hd1 : 1 ≤ d)
+    (hd2 : d ≤ daysInMonth y m) :
+    civilFromDays (daysFromCivil y m d) = (y, m, d) :=
+  Proofs.C04.civil_of_days y m d hm1 hm2 hd1 hd2
+
+example : civilFromDays (daysFromCivil 2020 2 29) = (2020, 2, 29) ∧ (29 : Int) ≤ daysInMonth 2020 2 := by
+  decide +kernel
+
+open _root_.MongoModel.Proofs.C04 (partsDoc partsArgs PartsInRange partsUs)
+attribute [local instance] MongoModel.Proofs.valDecEq
+
+/-- **dateFromParts_parts_roundtrip** — for parts that are all inside their calendar ranges
+    (year 1 … 9999, month 1 … 12, day 1 … the days of that month, hour 0 … 23, minute and second
+    0 … 59, millisecond 0 … 999) `$dateFromParts` answers a date, and `$year $month $dayOfMonth
+    $hour $minute $second $millisecond` of that date are the parts. -/
+theorem dateFromParts_parts_roundtrip (y mo d h mi s ms : Int) (hr : PartsInRange y mo d h mi s)
+    (ms0 : 0 ≤ ms) (ms1 : ms ≤ 999) :
+    ∃ u, dateOp "$dateFromParts" (partsDoc y mo d h mi s ms) = .ok (.date u none) ∧
+      dateOp "$year" (.date u none) = .ok (.int y) ∧
+      dateOp "$month" (.date u none) = .ok (.int mo) ∧
+      dateOp "$dayOfMonth" (.date u none) = .ok (.int d) ∧
+      dateOp "$hour" (.date u none) = .ok (.int h) ∧
+      dateOp "$minute" (.date u none) = .ok (.int mi) ∧
+      dateOp "$second" (.date u none) = .ok (.int s) ∧
+      dateOp "$millisecond" (.date u none) = .ok (.int ms) := by
+  refine ⟨partsUs y mo d h mi s ms, ?_, ?_⟩
+  · rw [Proofs.C04.dateOp_fromParts, Proofs.C04.dateFromPartsOp_inrange y mo d h mi s ms hr,
+      Proofs.C04.mkDate_inrange y mo d h mi s ms hr ms0 ms1]
+  · rw [Proofs.C04.dateOp_part "$year" (by decide), Proofs.C04.dateOp_part "$month" (by decide),
+      Proofs.C04.dateOp_part "$dayOfMonth" (by decide), Proofs.C04.dateOp_part "$hour" (by decide),
+      Proofs.C04.dateOp_part "$minute" (by decide), Proofs.C04.dateOp_part "$second" (by decide),
+      Proofs.C04.dateOp_part "$millisecond" (by decide)]
+    exact Proofs.C04.parts_of_partsUs y mo d h mi s ms hr ms0 ms1
+
+example : PartsInRange 2020 2 29 13 14 15 := by decide +kernel
+
+/-- the same through the evaluator, on one expression: the month of a date built from parts -/
+example :
+    evalExpr (.doc [("_id", .int 0)])
+      (.doc [("$month", .doc [("$dateFromParts", .doc [("year", .int 2020), ("month", .int 2),
+        ("day", .int 29), ("hour", .int 13), ("millisecond", .int 123)])])]) = .ok (some (.int 2)) := by
+  decide +kernel
+
+/-- **dateFromParts_eq_spec_partial** — on integer parts that are all inside their calendar
+    ranges (the milliseconds may be any integer) the model of the code and the rule agree: both
+    answer the instant of those parts, or have no answer when the milliseconds carry it out of
+    the years 1 … 9999. -/
+theorem dateFromParts_eq_spec_partial (y mo d h mi s ms : Int) (hr : PartsInRange y mo d h mi s) :
+    dateOp "$dateFromParts" (partsDoc y mo d h mi s ms) = dateFromPartsS (partsArgs y mo d h mi s ms) := by
+  rw [Proofs.C04.dateOp_fromParts]
+  have hd31 := Proofs.C04.daysInMonth_le y mo
+  obtain ⟨y0, y1, m0, m1, d0, d1, h0, h1, i0, i1, s0, s1⟩ := id hr
+  rw [Proofs.C04.dateFromPartsOp_inrange y mo d h mi s ms hr,
+    Proofs.C04.dateFromPartsS_ints y mo d h mi s ms y0 y1
+      (by simp [smallPart]; omega),
+    Proofs.C04.carryUs_inrange y mo d h mi s ms m0 m1]
+
+example : PartsInRange 9999 12 31 23 59 59 ∧
+    dateOp "$dateFromParts" (partsDoc 9999 12 31 23 59 59 999) = .ok (.date 253402300799999000 none) ∧
+    dateOp "$dateFromParts" (partsDoc 9999 12 31 23 59 59 1000) = unmodelled ∧
+    dateFromPartsS (partsArgs 9999 12 31 23 59 59 1000) = unmodelled := by
+  decide +kernel
+
+/-- outside the calendar ranges they differ (classes partscarry, partszero): month 14 is a
+    ValueError in the code and February of the next year by the rule; day 0 is the 1st in the
+    code and the last day of the month before by the rule -/
+theorem dateFromParts_eq_spec_full_fails :
+    dateOp "$dateFromParts" (partsDoc 2020 14 1 0 0 0 0) = .error .valueErr ∧
+    dateFromPartsS (partsArgs 2020 14 1 0 0 0 0) = .ok (.date 1612137600000000 none) ∧
+    dateOp "$dateFromParts" (partsDoc 2020 3 0 0 0 0 0) = .ok (.date 1583020800000000 none) ∧
+    dateFromPartsS (partsArgs 2020 3 0 0 0 0 0) = .ok (.date 1582934400000000 none) := by
+  decide +kernel
+
+/-- **dateFromParts_millisecond_carry** — the milliseconds are not range-checked: any integer is
+    added to the instant of the other parts, by the code (a `timedelta`) as by the rule; so 1000
+    more milliseconds are one more second. -/
+theorem dateFromParts_millisecond_carry (y mo d h mi s ms : Int) (hr : PartsInRange y mo d h mi s) :
+    dateOp "$dateFromParts" (partsDoc y mo d h mi s ms) = mkDate (partsUs y mo d h mi s 0 + ms * 1000) ∧
+    dateFromPartsS (partsArgs y mo d h mi s ms) = mkDate (partsUs y mo d h mi s 0 + ms * 1000) ∧
+    (s + 1 ≤ 59 → dateOp "$dateFromParts" (partsDoc y mo d h mi s (ms + 1000)) =
+      dateOp "$dateFromParts" (partsDoc y mo d h mi (s + 1) ms)) := by
+  have e := dateFromParts_eq_spec_partial y mo d h mi s ms hr
+  have v : dateOp "$dateFromParts" (partsDoc y mo d h mi s ms) =
+      mkDate (partsUs y mo d h mi s 0 + ms * 1000) := by
+    rw [Proofs.C04.dateOp_fromParts, Proofs.C04.dateFromPartsOp_inrange y mo d h mi s ms hr]
+    congr 1; simp only [partsUs]; omega
+  refine ⟨v, e ▸ v, fun hs => ?_⟩
+  have hr' : PartsInRange y mo d h mi (s + 1) := by
+    obtain ⟨y0, y1, m0, m1, d0, d1, h0, h1, i0, i1, s0, s1⟩ := id hr
+    exact ⟨y0, y1, m0, m1, d0, d1, h0, h1, i0, i1, by omega, hs⟩
+  rw [Proofs.C04.dateOp_fromParts, Proofs.C04.dateOp_fromParts,
+    Proofs.C04.dateFromPartsOp_inrange y mo d h mi s (ms + 1000) hr,
+    Proofs.C04.dateFromPartsOp_inrange y mo d h mi (s + 1) ms hr']
+  congr 1; simp only [partsUs]; omega
+
+example :
+    PartsInRange 2017 1 1 0 0 0 ∧
+    dateOp "$dateFromParts" (partsDoc 2017 1 1 0 0 0 (-1)) = .ok (.date 1483228799999000 none) ∧
+    dateFromPartsS (partsArgs 2017 1 1 0 0 0 (-1)) = .ok (.date 1483228799999000 none) := by
+  decide +kernel
+
+/-- `$dateFromString` is refused (NotImplementedError) once its argument is parsed; `$dateFromParts`
+    refuses the ISO-week parts and `timezone`, after requiring exactly one of `year` /
+    `isoWeekYear`; a null part is the class partsnull -/
+theorem dateFromString_refused (v : Val) : dateOp "$dateFromString" v = .error .notImpl := rfl
+
+example :
+    dateOp "$dateFromParts" (.doc [("isoWeekYear", .int 2020)]) = .error .notImpl ∧
+    dateOp "$dateFromParts" (.doc [("year", .int 2020), ("timezone", .str "UTC")]) = .error .notImpl ∧
+    dateOp "$dateFromParts" (.doc [("month", .int 2)]) = .error .opFail ∧
+    dateOp "$dateFromParts" (.doc [("year", .int 2020), ("isoWeekYear", .int 2020)]) = .error .opFail ∧
+    dateOp "$dateFromParts" (.int 5) = .error .opFail ∧
+    dateOp "$dateFromParts" (.doc [("year", .null)]) = .error .typeErr ∧
+    dateOp "$dateFromParts" (.doc [("year", .int 2020), ("month", .null)]) =
+      .ok (.date 1577836800000000 none) ∧
+    dateFromPartsS [("year", some (.int 2020)), ("month", some .null)] = .ok .null ∧
+    exprReasons (.doc [("$dateFromParts", .doc [("year", .int 2020), ("month", .str "$a")])])
+      (.doc [("_id", .int 0), ("a", .null)]) = ["unproved:$dateFromParts", "partsnull"] := by
+  decide +kernel
+
 end MongoModel.Props.C04
